@@ -15,6 +15,8 @@ pub struct ScenarioStats {
 	/// `Chain::compact` returned this error (nothing may have changed)
 	pub compaction_declined: Option<String>,
 	pub pairs_spent: usize,
+	/// old outputs spent by the spender block whose sibling was spent long before the horizon
+	pub half_pairs_spent: usize,
 	pub depth: usize,
 }
 
@@ -72,6 +74,21 @@ pub fn compaction_reorg_scenario_ex(seed: u64, depth: usize, dir: &str, headers_
 /// old outputs but outputs created `d` blocks relative to the block that will be the compaction horizon
 /// (d = 0: in the horizon block itself, -1 / +1: one block below / above it); requires depth <= horizon.
 pub fn compaction_reorg_scenario_opts(seed: u64, depth: usize, dir: &str, headers_first: bool, pairs_created_at: Option<i64>) -> Result<ScenarioStats, ScenarioFailure> {
+	// a generated world may lack the outputs the scenario is about (the random spends of the trunk took them): that is
+	// a property of the generator, not of the node — another world is drawn, the replay data names the seed used
+	let mut last = None;
+	for attempt in 0..6u64 {
+		let s = if attempt == 0 { seed } else { seed ^ attempt.wrapping_mul(0xA24B_AED4_963E_E407) };
+		let _ = std::fs::remove_dir_all(dir);
+		match compaction_reorg_scenario_once(s, depth, dir, headers_first, pairs_created_at) {
+			Err((clause, what, replay)) if clause == "inconclusive" => last = Some((clause, what, replay)),
+			other => return other,
+		}
+	}
+	Err(last.unwrap())
+}
+
+fn compaction_reorg_scenario_once(seed: u64, depth: usize, dir: &str, headers_first: bool, pairs_created_at: Option<i64>) -> Result<ScenarioStats, ScenarioFailure> {
 	let mut prng = Prng::new(seed ^ 0x5CE7A);
 	let mut h = Hist::new(seed, false);
 	let horizon = grin_core::global::cut_through_horizon() as u64;
@@ -79,6 +96,7 @@ pub fn compaction_reorg_scenario_opts(seed: u64, depth: usize, dir: &str, header
 	// the block that is the horizon when the node compacts at the head of the spender branch
 	let special_height: Option<u64> = pairs_created_at.map(|d| ((n_trunk + depth as u64 - horizon) as i64 + d).max(11) as u64).filter(|x| *x <= n_trunk);
 	let mut tip = h.genesis.hash();
+	let mut half_partners: Vec<Coin> = vec![];
 	for i in 1..=n_trunk {
 		if Some(i) == special_height {
 			// a block creating 1 + 4 outputs: five consecutive leaves hold at least one aligned sibling pair of plain outputs
@@ -91,6 +109,40 @@ pub fn compaction_reorg_scenario_opts(seed: u64, depth: usize, dir: &str, header
 					continue;
 				}
 				None => {}
+			}
+		}
+		if i == 45 {
+			// "half pairs": one sibling of a pair of old outputs is spent HERE, long before the horizon (compaction prunes
+			// it), its partner only by the spender block inside the horizon window — the partner is then the only thing
+			// keeping the pair's data on disk; first pair keeps the right leaf, second pair the left leaf
+			let st = h.state(&tip);
+			let mut early: Vec<Coin> = vec![];
+			let mut k = 0usize;
+			while 2 * k + 1 < st.outs.len() && early.len() < 2 {
+				let (a, b) = (&st.outs[2 * k], &st.outs[2 * k + 1]);
+				k += 1;
+				if a.height > 40 || b.height > 40 || a.height == 0 || st.utxo.get(&a.commit) != Some(&(2 * k - 2)) || st.utxo.get(&b.commit) != Some(&(2 * k - 1)) {
+					continue;
+				}
+				if let (Some(ca), Some(cb)) = (h.coins.get(&a.commit.0.to_vec()).cloned(), h.coins.get(&b.commit.0.to_vec()).cloned()) {
+					if early.len() == 0 {
+						early.push(ca);
+						half_partners.push(cb);
+					} else {
+						early.push(cb);
+						half_partners.push(ca);
+					}
+					k += 1; // not the neighbouring pair: keep the parents apart
+				}
+			}
+			if !early.is_empty() {
+				let tx = h.spend_tx(&early, 1, None);
+				let gb = h.add_block(&tip, &[tx], "honest", vec!["spends_one_sibling_of_old_pairs_long_before_the_horizon".to_string()]);
+				if gb.verdict.is_ok() {
+					tip = gb.hash;
+					continue;
+				}
+				half_partners.clear();
 			}
 		}
 		let gb = h.honest_block(&tip, if i > 10 && i % 7 == 0 { 1000 } else { 0 });
@@ -109,7 +161,8 @@ pub fn compaction_reorg_scenario_opts(seed: u64, depth: usize, dir: &str, header
 				Some(sh) => a.height == sh && b.height == sh && a.features == grin_core::core::OutputFeatures::Plain && b.features == grin_core::core::OutputFeatures::Plain,
 				None => a.height <= 40 && b.height <= 40,
 			};
-			if wanted && st.utxo.contains_key(&a.commit) && st.utxo.contains_key(&b.commit) {
+			// (the unspent instance of the commitment must be THIS leaf: histories re-create spent commitments)
+			if wanted && st.utxo.get(&a.commit) == Some(&(2 * k)) && st.utxo.get(&b.commit) == Some(&(2 * k + 1)) {
 				if let (Some(ca), Some(cb)) = (h.coins.get(&a.commit.0.to_vec()), h.coins.get(&b.commit.0.to_vec())) {
 					v.push((ca.clone(), cb.clone()));
 				}
@@ -127,6 +180,13 @@ pub fn compaction_reorg_scenario_opts(seed: u64, depth: usize, dir: &str, header
 		spend.push(a.clone());
 		spend.push(b.clone());
 	}
+	// partners of the half pairs that nothing has spent since
+	{
+		let st = h.state(&tip);
+		half_partners.retain(|c| st.utxo.get(&c.commit).map(|i| st.outs[*i].height <= 40).unwrap_or(false));
+	}
+	let n_half = half_partners.len();
+	spend.extend(half_partners.iter().cloned());
 	let fork_point = tip;
 	let spender = mk_block(&mut h, &fork_point, &spend, 10, "spend_sibling_pairs_of_old_outputs");
 	let mut main_tip = spender.hash;
@@ -152,6 +212,7 @@ pub fn compaction_reorg_scenario_opts(seed: u64, depth: usize, dir: &str, header
 		merkle_proofs_verified: 0,
 		compaction_declined: None,
 		pairs_spent: n_pairs,
+		half_pairs_spent: n_half,
 		depth,
 	};
 	let mut chain = Some(open_chain(dir, &h.genesis).map_err(|e| fail("open_failed", e))?);
